@@ -35,6 +35,8 @@ def encoding_current(ctx, tree, post, bits, clause, key, tag=""):
     for i in post.leaves():
         if post.taxon[i] is not None:
             full |= 1 << bits[int(post.taxon[i][1:])]
+    if full == 0:
+        return  # no taxon on any leaf: nothing to encode
     edge_bips = []
     for i in post.nodes():
         b = post.obj[i]._edge._bipartition
